@@ -92,6 +92,7 @@ func (e *Engine) VerifyFunc(fn *ssa.Function, ct *spec.FuncContract) (res *FuncR
 		bind(fv, fv.Name())
 		delete(f.params, fv.Name()) // the source name of a captured variable denotes its content (see bodyEnv)
 	}
+	f.notePrivateFreeVars()
 	f.entryNames = map[string]Val{}
 	for k, v := range f.params {
 		f.entryNames[k] = v
